@@ -283,3 +283,76 @@ class Verifier:
             if key not in allowed_cattr:
                 col.add('FRAME', con.props, info.qualname, '%s:cattr-%s' % (ptag, key[1]),
                         'class attribute %s.%s is not written' % key, asm, z3.BoolVal(False))
+
+
+    # ------------------------------------------------------------------ lemmas over contracts
+    def verify_lemma(self, con):
+        """a lemma is a small program over *contracts* (callees are never executed by body):
+        requires(...) assume, check(...) emit LEMMA obligations, other statements run normally"""
+        insts = con.opts.get('instances') or [con.opts.get('instance', 'scaled')]
+        alts = [a for _, a in con.params]
+        for inst, case in itertools.product(insts, itertools.product(*alts)):
+            self.cur_instance = inst
+            cname = ','.join(case)
+            try:
+                self._lemma_case(con, case, cname)
+            except Unsupported as e:
+                self.col.ungenerated(con.props, con.target, 'case[%s]' % cname, 'unsupported: %s' % e)
+
+    def _lemma_case(self, con, case, cname):
+        ex = self.new_exec()
+        ex.instance = self.cur_instance
+        for hk in self.hooks:
+            hk(ex)
+        ex.cur_props = con.props
+
+        class _F:           # stand-in for cur_func (obligation ids)
+            qualname = con.target
+        ex.cur_func = _F()
+        st = State()
+        a0 = fresh_int('alloc0')
+        st.assume(a0 >= 1)
+        st.alloc = a0
+        st.ghost['alloc0'] = a0
+        env = {}
+        for (pname, _), ann in zip(con.params, case):
+            env[pname] = ex.C.fresh_by_annotation(ann, st, pname)
+        names = set(env) | {n.id for n in ast.walk(con.node) if isinstance(n, ast.Name) and isinstance(n.ctx, ast.Store)}
+        fr = ex.new_frame(st, None, None, None, None, locals_set=names)
+        fr.func = None
+        st.envs[fr.fid].update(env)
+        states = [st]
+        tag = '%s[%s]' % (con.name, cname)
+        for stmt in con.node.body:
+            nxt = []
+            for s in states:
+                if isinstance(stmt, ast.Expr) and isinstance(stmt.value, ast.Constant):
+                    nxt.append(s)
+                    continue
+                if isinstance(stmt, ast.Expr) and isinstance(stmt.value, ast.Call) and \
+                        isinstance(stmt.value.func, ast.Name) and stmt.value.func.id in ('requires', 'check'):
+                    saved = (ex.spec_mode, ex.spec_pre, ex.spec_result)
+                    ex.spec_mode, ex.spec_pre, ex.spec_result = 'post', None, None
+                    try:
+                        f = ex.C.spec_bool(stmt.value.args[0], s, fr)
+                    finally:
+                        ex.spec_mode, ex.spec_pre, ex.spec_result = saved
+                    if stmt.value.func.id == 'requires':
+                        s.assume(f)
+                    else:
+                        kw = {k.arg: k.value for k in stmt.value.keywords}
+                        lab = ast.literal_eval(kw['name']) if 'name' in kw else ast.unparse(stmt.value.args[0])
+                        self.col.add('LEMMA', con.props, con.target, tag + ':' + lab[:70], 'lemma over contracts: ' + lab,
+                                     ex.C.assumptions(s), f)
+                    nxt.append(s)
+                    continue
+                for o in ex.run_stmt(stmt, s, fr):
+                    if o.kind == 'ok':
+                        nxt.append(o.st)
+                    elif o.kind == 'exc':
+                        self.col.add('LEMMA', con.props, con.target, tag + ':no-' + o.exc,
+                                     'lemma program raises %s' % o.exc, ex.C.assumptions(o.st), z3.BoolVal(False))
+            states = nxt
+        if states:
+            self.col.add('COVER', con.props, con.target, tag + ':reachable', 'lemma premises satisfiable',
+                         [z3.Or(*[z3.And(*s.pc) for s in states])], z3.BoolVal(True), must='sat')
